@@ -9,8 +9,10 @@
 (*   names   ::= "all" | name ("," name)*      (case-insensitive, known)   *)
 (*   group   ::= op flag*              op in = + - , flag in e i p,         *)
 (*                                     two operators never adjacent        *)
-(* `Verdict` is "accept", "reject" or "dontcare" (the statement does not   *)
-(* say whether `all` may be mixed with other names in one list).           *)
+(* `Verdict` is "accept" or "reject" ("dontcare" is kept in the vocabulary  *)
+(* of the trace specification but no text is given that verdict any more:  *)
+(* the statement offers 'all' as an alternative to the name list, so a     *)
+(* list that merely contains it is not a list of known capability names).  *)
 (***************************************************************************)
 EXTENDS Naturals, Sequences, CapNames
 
@@ -44,9 +46,7 @@ NamesVerdict(ns) ==
         hasAll == \E k \in 1..Len(items) : items[k] = AllName
     IN IF low = AllName THEN "accept"
        ELSE IF known THEN "accept"
-       ELSE IF hasAll /\ \A k \in 1..Len(items) : (items[k] = AllName \/ items[k] \in KnownCaps)
-            THEN "dontcare"
-       ELSE "reject"
+       ELSE "reject"        \* incl. 'all' as a member of a longer list: 'all' stands in place of the list, not inside it
 
 SuffixOk(x) ==     \* x starts with an operator
     \A k \in 1..Len(x) :
